@@ -61,6 +61,25 @@ def main():
         assert cats["w.j.q = 6"] == "ir-write", (cats, effs)      # ... and this one to its argument
     finally:
         shutil.rmtree(d, ignore_errors=True)
+    # normaliser: boolean search folding, De Morgan, comprehension desugaring, helper inlining, local inlining
+    from . import normalize as N
+    h = ast.parse("def h(m, nb):\n    if not nb:\n        return False\n    for k, v in nb.items():\n        if not upd(m, k, v):\n            return False\n    return True\n").body[0]
+    e = N._bool_search(N._strip_doc(h.body))
+    assert ast.unparse(N._push_not(ast.UnaryOp(op=ast.Not(), operand=e))) == \
+        "not nb or any((not upd(m, k, v) for k, v in nb.items()))", ast.unparse(e)
+    mod = ast.parse(
+        "def _helper(a):\n    out = []\n    for x in a:\n        out.append(x)\n    return out\n"
+        "def _pred(t):\n    return t.w() or t.p()\n"
+        "def f(a, b):\n    r = _helper(a)\n    tmp = b.c\n    if _pred(tmp):\n        return [q for q in r if q]\n    return all(z for z in r)\n")
+    st = {}
+    N._inline_helpers(mod, "m", {"m.f"}, st)
+    fnode = [n for n in mod.body if n.name == "f"][0]
+    N._desugar_comps(fnode, set(), st)
+    N._inline_locals(fnode, "m.f", {}, st)
+    ast.fix_missing_locations(mod)
+    txt = ast.unparse(mod)
+    assert "_helper" not in txt and "_pred" not in txt and "tmp" not in txt, txt
+    assert "if b.c.w() or b.c.p():" in txt and "_hsa_result.append(q)" in txt and "return False" in txt, txt
     print("hsa selftest ok (compiled=%s)" % bool(ok))
     return 0
 
